@@ -168,11 +168,6 @@ class Filenames(object):
         # Return static filenames
         for item in static:
             currentns = self.variables.copy()
-            for key, value in list(currentns.items()):
-                if self.charsub:
-                    for char in self.charsub[0]:
-                        value = value.replace(char, self.charsub[1])
-                currentns[key] = value
             for key, format in keysre.findall(item):
                 # Supply a file number as needed
                 if key == 'num':
@@ -186,6 +181,11 @@ class Filenames(object):
                         if not value:
                             break
                     currentns[key] = ' '.join(newvalue)
+            for key, value in list(currentns.items()):
+                if self.charsub:
+                    for char in self.charsub[0]:
+                        value = value.replace(char, self.charsub[1])
+                currentns[key] = value
             try:
                 # Strip formats
                 item = re.sub(r'(\$\{\w+)\.\d+(\})', r'\1\2', item)
@@ -210,11 +210,6 @@ class Filenames(object):
             passes += 1
             for item in wildcard:
                 currentns = self.variables.copy()
-                for key, value in list(currentns.items()):
-                    if self.charsub:
-                        for char in self.charsub[0]:
-                            value = value.replace(char, self.charsub[1])
-                    currentns[key] = value
                 for key, format in keysre.findall(item):
                     # Supply a file number as needed
                     if key == 'num':
@@ -228,6 +223,11 @@ class Filenames(object):
                             if not value:
                                 break
                         currentns[key] = ' '.join(newvalue)
+                for key, value in list(currentns.items()):
+                    if self.charsub:
+                        for char in self.charsub[0]:
+                            value = value.replace(char, self.charsub[1])
+                    currentns[key] = value
                 try:
                     # Strip formats
                     item = re.sub(r'(\$\{\w+)\.\d+(\})', r'\1\2', item)
